@@ -451,3 +451,23 @@ def base_docs():
          "display_hints": {"display_horizontal": "é", "display_vertical": "t", "display_time": "t"}},
         {**req, "node_props_metadata": {"a": pm("a", "int"), "b": pm("b", "U5", varlength=False)}},
     ]
+
+
+# ------------------------------------------------------------------ bounded reporting of disagreements
+class CorrLimiter:
+    """Forwards at most `keep` model/implementation disagreements per class to Check.corr_broken (each one
+    carries its whole case) and counts all of them in ck.extra["corr_disagreement_counts"]."""
+
+    def __init__(self, ck, keep: int = 5):
+        self.ck, self.keep = ck, keep
+        self.counts: dict = {}
+        ck.extra["corr_disagreement_counts"] = self.counts
+
+    def corr_broken(self, name, case, impl, model):
+        n = self.counts.get(name, 0)
+        self.counts[name] = n + 1
+        if n < self.keep:
+            self.ck.corr_broken(name, case, impl, model)
+
+    def __getattr__(self, item):
+        return getattr(self.ck, item)
